@@ -93,6 +93,20 @@ def r04_1(ctx: Ctx, rep: Report) -> None:  # noqa: C901
                     c = chain(t.value)
                     if c and c[0] == D:
                         muts.append(n)
+    # ... nor of the lists inside it: in-place reducers over its values (`reduce(operator.iconcat, D.values())` grows the
+    # FIRST value list), loop variables over its values / items that are changed in place
+    INPLACE = ("operator.iconcat", "operator.iadd", "iconcat", "iadd", "list.extend", "list.__iadd__")
+    for n in own_nodes(ds.node):
+        if isinstance(n, ast.Call) and src(n.func) in ("reduce", "functools.reduce") and len(n.args) == 2 and src(n.args[0]) in INPLACE and mentions(n.args[1], D):
+            muts.append(n)
+        if isinstance(n, (ast.For, ast.comprehension)) and mentions(n.iter, D):
+            lvars = {y.id for y in ast.walk(n.target) if isinstance(y, ast.Name)}
+            scope = n if isinstance(n, ast.For) else getattr(n, "_parent", n)
+            for m in ast.walk(scope):
+                if isinstance(m, ast.Call) and isinstance(m.func, ast.Attribute) and m.func.attr in ("append", "extend", "remove", "sort", "reverse", "insert", "pop", "clear") and isinstance(m.func.value, ast.Name) and m.func.value.id in lvars:
+                    muts.append(m)
+                if isinstance(m, ast.AugAssign) and isinstance(m.target, ast.Name) and m.target.id in lvars:
+                    muts.append(m)
     rep.instance()
     if muts:
         rep.violation("Acl.delete_shadow", snippet(muts[0]), "the report is modified between the query and the return", where(ds, muts[0]))
